@@ -52,8 +52,8 @@ def explore_jobs(tier):
         return ("MC_Contagion", {"Kind": "hg", "Node": set(range(1, n + 1)), "ZMin": zmin, "ZMax": zmax, "T": T, "KeepOut": keep}, CT_INV)
     if tier == "quick":
         return [rw(4, 2, 4, 11), ct(3, 2, 3, 4, True), ct(4, 2, 3, 2, False)]
-    return [rw(4, 2, 4, 11), rw(3, 2, 3, 4), rw(5, 2, 5, 3),
-            ct(3, 1, 3, 4, True), ct(4, 2, 3, 4, False)]
+    return [ct(4, 2, 3, 4, False), ct(4, 2, 3, 3, True), rw(4, 2, 4, 11), rw(3, 2, 3, 4), rw(5, 2, 5, 4),
+            ct(3, 1, 3, 4, True)]
 
 
 # ---------------------------------------------------------------------------
@@ -270,7 +270,7 @@ def randwalk_part(res, tier, seed):
         todo.append((z, [tuple(range(1, z + 1))]))
     todo.append((5, [(1, 2), (2, 3), (3, 4), (4, 5)]))
     todo.append((5, [(1, 2), (1, 3), (1, 4), (1, 5)]))
-    for _ in range(400 if tier == "quick" else 3000):
+    for _ in range(400 if tier == "quick" else 6000):
         n = rng.choice([5, 6, 7, 8])
         todo.append((n, random_connected(rng, n, 5)))
     specs = [{"part": "randwalk", "n": n, "edges": [list(e) for e in es],
@@ -391,7 +391,7 @@ def contagion_part(res, tier, seed):
             for reg in itertools.product("01", repeat=3):
                 plans.append((3, es, I0, 4, tuple(rng.choice(det_vals[c]) for c in reg)))
     # (ii) larger hypergraphs, deterministic regimes and random rates
-    nrand = 2500 if tier == "quick" else 14000
+    nrand = 2500 if tier == "quick" else 30000
     for i in range(nrand):
         n = rng.choice([2, 3, 4, 4, 5, 5, 6, 6, 7, 7])
         es = set()
